@@ -256,3 +256,26 @@ Proof.
   - destruct (start_spec s_time s_sec (init_events 0 ex_init)) as (_ & Hok & _). exact Hok.
   - vm_compute. repeat split; reflexivity.
 Qed.
+
+(* ------------------------------------------------------------------ link between the evaluators *)
+From Akita Require Import C01.Exec C01.ProofsLink.
+
+(** On every well-formed case (script without negative offsets, clock not set after a queued event —
+    the inputs the property quantifies over) agreement of the model with the observed behaviour of
+    timing.SerialEngine ([Exec.check_case]) implies the property predicate evaluated on the observed
+    behaviour ([Exec.holds_on]: reference priority-queue walk keyed by the harness' own uids, hooks
+    bracket every handler, Run returned with empty queues). *)
+Theorem c01_model_agreement_implies_property : forall c, wf c -> check_case c = true -> holds_on c = true.
+Proof. exact check_implies_holds. Qed.
+Print Assumptions c01_model_agreement_implies_property.
+
+(** the hypotheses of the link theorem are satisfiable (observations taken from the model itself) *)
+Example c01_link_nonvacuous :
+  let r := run_script_at ex_prog 30 ex_init 0 in
+  let c := mk_case ex_prog 30 ex_init 0 true (out_code (r_out r)) (map (proj_step true) (r_log r))
+             (e_now (r_en r)) (snapshot (e_p (r_en r))) (snapshot (e_s (r_en r))) in
+  wf c /\ check_case c = true /\ holds_on c = true /\ length (o_steps c) = 29%nat.
+Proof.
+  cbv zeta. split; [|vm_compute; repeat split; reflexivity].
+  split; [exact ex_prog_nonneg|]. intros e He. cbn [c_t0]. lia.
+Qed.
